@@ -50,7 +50,7 @@ type c18Txn struct {
 	SlowAt int `json:"slow_at,omitempty"`
 }
 
-const c18SlowMs = 60
+const c18SlowMs = 200
 
 type c18Case struct {
 	Txns []c18Txn `json:"txns"`
@@ -645,7 +645,7 @@ func TestC18(t *testing.T) {
 				tx.Rcpts = append(tx.Rcpts, rc)
 			}
 			// a few slow deliveries (each costs its pause in wall-clock time)
-			if rapid.IntRange(0, 999).Draw(rt, "slow")%30 == 7 {
+			if rapid.IntRange(0, 999).Draw(rt, "slow")%150 == 7 {
 				tx.SlowAt = rapid.IntRange(1, 3).Draw(rt, "slow_at")
 			}
 			c.Txns = append(c.Txns, tx)
